@@ -44,7 +44,33 @@ func init() {
 			{ID: "C09-G1-fast-path-skips-verify", File: "core/sigagg/sigagg.go", Expect: "G1",
 				Old: "\tif err := a.verifyFunc(ctx, pubkey, aggSig); err != nil {",
 				New: "\tif a.threshold == 1 {\n\t\treturn aggSig, nil\n\t}\n\n\tif err := a.verifyFunc(ctx, pubkey, aggSig); err != nil {"},
+			// G1, added with the path-based formulation (verdict overwritten / weakened / swallowed by a followed closure / struct copy)
+			{ID: "C09-G1-verdict-overwritten", File: "core/sigagg/sigagg.go", Expect: "G1",
+				Old: "\tif err := a.verifyFunc(ctx, pubkey, aggSig); err != nil {",
+				New: "\terr = a.verifyFunc(ctx, pubkey, aggSig)\n\t_, err = fullSig.SetSignature(tblsconv.SigToCore(sig))\n\n\tif err != nil {"},
+			{ID: "C09-G1-verdict-conjunct", File: "core/sigagg/sigagg.go", Expect: "G1",
+				Old: "\tif err := a.verifyFunc(ctx, pubkey, aggSig); err != nil {",
+				New: "\tif err := a.verifyFunc(ctx, pubkey, aggSig); err != nil && ctx.Err() != nil {"},
+			{ID: "C09-G1-closure-swallows-verdict", File: "core/sigagg/sigagg.go", Expect: "G1",
+				Old: "\tif err := a.verifyFunc(ctx, pubkey, aggSig); err != nil {",
+				New: "\tverify := func() error {\n\t\tif err := a.verifyFunc(ctx, pubkey, aggSig); err != nil {\n\t\t\tlog.Warn(ctx, \"verify failed\", err)\n\t\t}\n\n\t\treturn nil\n\t}\n\n\tif err := verify(); err != nil {"},
+			{ID: "C09-G1-reinject-after-verify", File: "core/sigagg/sigagg.go", Expect: "G1",
+				Old: "\tspan.SetStatus(codes.Ok, \"success\")\n",
+				New: "\tspan.SetStatus(codes.Ok, \"success\")\n\n\tif other, err := parSigs[0].SignedData.SetSignature(tblsconv.SigToCore(sig)); err == nil {\n\t\taggSig = other\n\t}\n"},
 			// G2
+			{ID: "C09-G2-publish-on-failure", File: "core/sigagg/sigagg.go", Expect: "G2",
+				Old: "\t\t\treturn errors.Wrap(err, \"threshold aggregate\", z.Any(\"pubkey\", pubkey))",
+				New: "\t\t\tfor _, sub := range a.subs {\n\t\t\t\t_ = sub(ctx, duty, output)\n\t\t\t}\n\n\t\t\treturn errors.Wrap(err, \"threshold aggregate\", z.Any(\"pubkey\", pubkey))"},
+			{ID: "C09-G2-stored-under-other-key", File: "core/sigagg/sigagg.go", Expect: "G2",
+				Old: "\t\toutput[pubkey] = signed\n", New: "\t\toutput[core.PubKey(duty.String())] = signed\n"},
+			{ID: "C09-G2-partials-of-other-entry", File: "core/sigagg/sigagg.go", Expect: "G2",
+				Old: "\t\tsigned, err := a.aggregate(ctx, pubkey, parSigs)\n",
+				New: "\t\t_ = parSigs\n\t\tsigned, err := a.aggregate(ctx, pubkey, set[core.PubKey(duty.String())])\n"},
+			{ID: "C09-G2-skip-after-first", File: "core/sigagg/sigagg.go", Expect: "G2",
+				Old: "\t\tsigned, err := a.aggregate(ctx, pubkey, parSigs)\n",
+				New: "\t\tif len(output) > 0 {\n\t\t\tcontinue\n\t\t}\n\n\t\tsigned, err := a.aggregate(ctx, pubkey, parSigs)\n"},
+			{ID: "C09-G2-clone-error-dropped", File: "core/sigagg/sigagg.go", Expect: "G2",
+				Old: "\t\tcloned, err := output.Clone()\n\t\tif err != nil {\n\t\t\treturn err\n\t\t}\n", New: "\t\tcloned, _ := output.Clone()\n"},
 			{ID: "C09-G2-publish-inside-loop", File: "core/sigagg/sigagg.go", Expect: "G2",
 				Old: "\t\toutput[pubkey] = signed\n\t}",
 				New: "\t\toutput[pubkey] = signed\n\n\t\tfor _, sub := range a.subs {\n\t\t\tif err := sub(ctx, duty, output); err != nil {\n\t\t\t\treturn err\n\t\t\t}\n\t\t}\n\t}"},
@@ -72,7 +98,27 @@ func init() {
 			{ID: "C09-G3-conjunct-weakened", File: "core/sigagg/sigagg.go", Expect: "G3",
 				Old: "\t\tblsSigs[parSig.ShareIdx] = sig\n\t}\n\n\tif len(blsSigs) < a.threshold {",
 				New: "\t\tblsSigs[parSig.ShareIdx] = sig\n\t}\n\n\tif len(blsSigs) < a.threshold && a.threshold < 0 {"},
+			{ID: "C09-G3-delete-after-test", File: "core/sigagg/sigagg.go", Expect: "G3",
+				Old: "\t// Aggregate signatures\n", New: "\tdelete(blsSigs, parSigs[0].ShareIdx)\n\n\t// Aggregate signatures\n"},
+			{ID: "C09-G3-signature-of-other-partial", File: "core/sigagg/sigagg.go", Expect: "G3",
+				Old: "tblsconv.SigFromCore(parSig.Signature())", New: "tblsconv.SigFromCore(parSigs[0].Signature())"},
+			{ID: "C09-G3-local-threshold", File: "core/sigagg/sigagg.go", Expect: "G3",
+				Old: "\tif len(blsSigs) < a.threshold {", New: "\tif threshold := 1; len(blsSigs) < threshold {"},
+			{ID: "C09-G3-insert-after-test", File: "core/sigagg/sigagg.go", Expect: "G3",
+				Old: "\t// Aggregate signatures\n", New: "\tblsSigs[parSigs[0].ShareIdx+1] = blsSigs[parSigs[0].ShareIdx]\n\n\t// Aggregate signatures\n"},
 			// G4
+			{ID: "C09-G4-verifier-returns-stub", File: "core/sigagg/sigagg.go", Expect: "G4",
+				Old:  "\treturn func(ctx context.Context, pubkey core.PubKey, data core.SignedData) error {\n",
+				New:  "\tverify := func(ctx context.Context, pubkey core.PubKey, data core.SignedData) error {\n",
+				More: [][2]string{{"\t\treturn nil\n\t}\n}", "\t\treturn nil\n\t}\n\t_ = verify\n\n\treturn func(context.Context, core.PubKey, core.SignedData) error { return nil }\n}"}}},
+			{ID: "C09-G4-verify-error-masked", File: "eth2util/signing/signing.go", Expect: "G4",
+				Old: "\treturn tbls.Verify(pubkey, sigData[:], tbls.Signature(signature))",
+				New: "\tif err := tbls.Verify(pubkey, sigData[:], tbls.Signature(signature)); err != nil && ctx.Err() == nil {\n\t\treturn err\n\t}\n\n\treturn nil"},
+			{ID: "C09-G4-root-error-chained-away", File: "core/eth2signeddata.go", Expect: "G4",
+				Old: "\tsigRoot, err := data.MessageRoot()\n\tif err != nil {\n\t\treturn err\n\t}",
+				New: "\tsigRoot, err := data.MessageRoot()\n\tif err != nil {\n\t\t_, err = data.Epoch(ctx, eth2Cl)\n\t}\n\n\tif err != nil {\n\t\treturn err\n\t}"},
+			{ID: "C09-G4-domain-of-other-epoch-var", File: "eth2util/signing/signing.go", Expect: "G4",
+				Old: "\tdomain, err := GetDomain(ctx, eth2Cl, name, epoch)\n", New: "\tother := epoch\n\tother--\n\n\tdomain, err := GetDomain(ctx, eth2Cl, name, other)\n"},
 			{ID: "C09-G4-constant-domain", File: "core/eth2signeddata.go", Expect: "G4",
 				Old: "signing.Verify(ctx, eth2Cl, data.DomainName(), epoch,", New: "signing.Verify(ctx, eth2Cl, signing.DomainBeaconAttester, epoch,"},
 			{ID: "C09-G4-epoch-shift", File: "core/eth2signeddata.go", Expect: "G4",
@@ -276,15 +322,6 @@ func c09CallName(call *ssa.Call) string {
 // c09Peel lists static callees that only re-type their argument.
 var c09Peel = map[string]bool{"core.Signature.ToETH2": true}
 
-// c09Origin returns the single origin of v ("other" when v merges several).
-func c09Origin(v ssa.Value) c09Org {
-	os := c09Origins(v)
-	if len(os) == 1 {
-		return os[0]
-	}
-	return c09Org{Kind: "other", Val: v}
-}
-
 // c09Origins returns every possible origin of v: phi edges and the stores into a local that is
 // only loaded/sliced are all followed (flow-insensitively).
 func c09Origins(v ssa.Value) []c09Org {
@@ -434,38 +471,6 @@ func c09Bind(c *rt.Ctx, construct string, pos token.Pos, v ssa.Value, wantDesc s
 	return false
 }
 
-// c09CheckedCall: every call v originates from is a checked guard of sink.
-func c09CheckedCall(c *rt.Ctx, construct string, v ssa.Value, sink ssa.CallInstruction, msg string) {
-	for _, o := range c09Origins(v) {
-		if o.Call == nil {
-			c.Unsure(construct, sink.Pos(), "origin is not a call")
-			return
-		}
-		if g, why := an.Guarded(o.Call, sink, an.DefaultGuard); !g {
-			c.Bad(construct, sink.Pos(), msg+why)
-			return
-		}
-	}
-	c.Good(construct, sink.Pos(), "")
-}
-
-func c09IsParam(p *ssa.Parameter) func(o c09Org) bool {
-	return func(o c09Org) bool { return o.Kind == "param" && o.Val == ssa.Value(p) }
-}
-
-// c09IsInvokeOn: result idx of interface method `method` invoked on parameter recv.
-func c09IsInvokeOn(recv *ssa.Parameter, method string, idx int) func(o c09Org) bool {
-	return func(o c09Org) bool {
-		return o.Kind == "call" && o.Idx == idx && o.Call.Call.IsInvoke() && o.Call.Call.Method.Name() == method &&
-			an.Unwrap(o.Call.Call.Value) == ssa.Value(recv)
-	}
-}
-
-// c09IsResultOf: result idx of the given call instruction.
-func c09IsResultOf(call ssa.CallInstruction, idx int) func(o c09Org) bool {
-	return func(o c09Org) bool { return o.Kind == "call" && o.Idx == idx && ssa.Value(o.Call) == call.Value() }
-}
-
 // c09NonNilEdge reports whether instruction at lies on a path where error value e is known non-nil
 // (dominated by the non-nil successor of a branch on e).
 func c09NonNilEdge(fn *ssa.Function, e ssa.Value, at ssa.Instruction) bool {
@@ -489,98 +494,6 @@ func c09NonNilEdge(fn *ssa.Function, e ssa.Value, at ssa.Instruction) bool {
 	return false
 }
 
-// c09ErrStatus returns the error-typed result value(s) of a call.
-func c09ErrStatus(g ssa.CallInstruction) []ssa.Value {
-	errs, _ := an.StatusOf(g, -1)
-	return errs
-}
-
-// c09NilOnlyVia: every return of fn whose error result may be nil is either the verdict of gate
-// itself or a constant nil committed on the checked pass edge of gate. Non-nil errors (errors.New /
-// errors.Wrap / a value on its own non-nil edge) carry no obligation.
-func c09NilOnlyVia(c *rt.Ctx, fn *ssa.Function, gate ssa.CallInstruction, label string) {
-	gateErrs := c09ErrStatus(gate)
-	name := an.FuncName(fn)
-	for _, r := range c09Returns(fn) {
-		n := len(r.Vals)
-		if n == 0 {
-			continue
-		}
-		e, sink := r.Vals[n-1], r.Sink[n-1]
-		construct := fmt.Sprintf("%s success only via %s", name, label)
-		if e == nil {
-			c.Unsure(construct, posOf(r.Ret), "returned error value cannot be resolved")
-			continue
-		}
-		isGate := false
-		for _, g := range gateErrs {
-			if an.Unwrap(e) == g {
-				isGate = true
-			}
-		}
-		switch {
-		case isGate:
-			if c09NonNilEdge(fn, e, sink) {
-				continue // failure pass-through
-			}
-			c.Good(construct, posOf(r.Ret), "returns the verdict of "+label)
-		case an.IsNilConst(e):
-			ok, why := an.Guarded(gate, sink, an.DefaultGuard)
-			c.Check(construct, posOf(r.Ret), ok, "a nil error is returned on a path on which "+label+" did not succeed: "+why)
-		default:
-			if call, ok := an.Unwrap(e).(*ssa.Call); ok && an.Static("app/errors.New", "app/errors.Wrap")(&call.Call) {
-				continue
-			}
-			if c09NonNilEdge(fn, e, sink) {
-				continue
-			}
-			c.Unsure(construct, posOf(r.Ret), "cannot tell whether the returned error can be nil without "+label+" succeeding")
-		}
-	}
-}
-
-func c09IsLen(v ssa.Value, of ssa.Value) bool {
-	call, ok := v.(*ssa.Call)
-	if !ok {
-		return false
-	}
-	b, ok := call.Call.Value.(*ssa.Builtin)
-	return ok && b.Name() == "len" && len(call.Call.Args) == 1 && call.Call.Args[0] == of
-}
-
-// c09LenGuards returns the branches `len(of) < thr` (any spelling) with thr satisfying isThr, as
-// (If, failing successor) pairs; the failing successor is the one taken when len < thr.
-func c09LenGuards(fn *ssa.Function, of ssa.Value, isThr func(ssa.Value) bool) (out []struct {
-	If   *ssa.If
-	Fail *ssa.BasicBlock
-}) {
-	for _, in := range an.Instrs(fn, false) {
-		lv, ok := in.(*ssa.Call)
-		if !ok || !c09IsLen(lv, of) {
-			continue
-		}
-		for _, cd := range an.CondsOn(fn, lv) {
-			if cd.Other == nil || !isThr(cd.Other) {
-				continue
-			}
-			var fail *ssa.BasicBlock
-			switch cd.Op {
-			case token.LSS:
-				fail = cd.Succ(true)
-			case token.GEQ:
-				fail = cd.Succ(false)
-			default:
-				continue
-			}
-			out = append(out, struct {
-				If   *ssa.If
-				Fail *ssa.BasicBlock
-			}{cd.If, fail})
-		}
-	}
-	return out
-}
-
 func c09HasField(c *rt.Ctx, pkgRel, typ, field string) {
 	obj := c.Pkg(pkgRel).Types.Scope().Lookup(typ)
 	if obj == nil {
@@ -598,15 +511,6 @@ func c09HasField(c *rt.Ctx, pkgRel, typ, field string) {
 	c.Bail("field %s.%s.%s not found", pkgRel, typ, field)
 }
 
-// c09LoadOfRecvField: v is a load of the named field of fn's receiver.
-func c09LoadOfRecvField(fn *ssa.Function, v ssa.Value, key string) bool {
-	if !isLoadOfValueField(v, key) {
-		return false
-	}
-	_, base, ok := an.FieldOf(v)
-	return ok && len(fn.Params) > 0 && base == ssa.Value(fn.Params[0])
-}
-
 // ---------------------------------------------------------------------------------------------
 
 func c09(c *rt.Ctx) {
@@ -616,583 +520,6 @@ func c09(c *rt.Ctx) {
 	c.Rule("G4", 28, func() { c09G4(c) })
 	c.Rule("G5", 22, func() { c09G5(c) })
 	c.Rule("G6", 2, func() { c09G6(c) })
-}
-
-// G1: every non-nil result of aggregate is the value verified under the pubkey parameter.
-func c09G1(c *rt.Ctx) {
-	fn := c.Fn(c09FnAggLower)
-	c09HasField(c, "core/sigagg", "Aggregator", "verifyFunc")
-	pubkeyP := c09ParamOfType(c, fn, "core.PubKey")
-	verifies := an.Calls(fn, an.FieldCall(c09Agg+".verifyFunc"), false)
-	nonNil := 0
-	for _, r := range c09Returns(fn) {
-		if len(r.Vals) != 2 {
-			c.Bail("aggregate: unexpected result arity")
-		}
-		v, sink := r.Vals[0], r.Sink[0]
-		construct := "aggregate non-nil result verified"
-		if v == nil {
-			c.Unsure(construct, posOf(r.Ret), "returned value cannot be resolved")
-			continue
-		}
-		if an.IsNilConst(v) {
-			continue
-		}
-		nonNil++
-		isVerified := func(x ssa.Value) ssa.CallInstruction {
-			for _, k := range verifies {
-				if len(k.Common().Args) == 3 && an.Unwrap(k.Common().Args[2]) == an.Unwrap(x) {
-					return k
-				}
-			}
-			return nil
-		}
-		vc := isVerified(v)
-		if phi, isPhi := an.Unwrap(v).(*ssa.Phi); vc == nil && isPhi {
-			// a merge of separately verified values is a shape the checker does not decide
-			any, all := false, true
-			for _, e := range phi.Edges {
-				if isVerified(e) != nil {
-					any = true
-				} else if _, nested := an.Unwrap(e).(*ssa.Phi); !nested && !an.IsNilConst(e) {
-					all = false
-				}
-			}
-			if any && !all {
-				c.Bad(construct, posOf(r.Ret), "the returned value merges a verified aggregate with a definition that never went through a.verifyFunc (e.g. the signature re-injected into another object after verification): the published object is not the verified one")
-				continue
-			}
-			if any {
-				c.Unsure(construct, posOf(r.Ret), "returned value merges several definitions, some of them verified")
-				continue
-			}
-		}
-		if vc == nil {
-			c.Bad(construct, posOf(r.Ret), "a non-nil result is returned that was not passed to a.verifyFunc")
-			continue
-		}
-		if _, base, ok := an.FieldOf(vc.Common().Value); !ok || base != ssa.Value(fn.Params[0]) {
-			c.Bad(construct, vc.Pos(), "verifyFunc is not the receiver's")
-			continue
-		}
-		if an.Unwrap(vc.Common().Args[1]) != ssa.Value(pubkeyP) {
-			c.Bad(construct, vc.Pos(), "the aggregate is verified under a key other than the pubkey parameter")
-			continue
-		}
-		ok, why := an.Guarded(vc, sink, an.DefaultGuard)
-		c.Check(construct, posOf(r.Ret), ok, "the result is returned on a path on which a.verifyFunc did not succeed: "+why)
-	}
-	if nonNil == 0 {
-		c.Bail("aggregate never returns a non-nil result")
-	}
-}
-
-// G2: all-or-nothing publication in Aggregate.
-func c09G2(c *rt.Ctx) {
-	fn := c.Fn(c09FnAggUpper)
-	c09HasField(c, "core/sigagg", "Aggregator", "subs")
-	setP := c09ParamOfType(c, fn, "map[core.PubKey][]core.ParSignedData")
-	subsM := an.FieldCall(c09Agg + ".subs")
-	// sweep: nobody else publishes
-	var pubs []ssa.CallInstruction
-	for _, f := range an.PkgFuncs(c.SSAPkg("core/sigagg")) {
-		for _, k := range an.Calls(f, subsM, false) {
-			root := f
-			for root.Parent() != nil {
-				root = root.Parent()
-			}
-			if root == fn && f != fn {
-				c.Unsure("subscribers called from a closure of Aggregate", k.Pos(), "publication from a nested function is not followed")
-				continue
-			}
-			if f != fn {
-				// a helper that merely forwards a set it was given is not followed (undecided); one that
-				// publishes a set of its own making bypasses the aggregation loop.
-				forwards := false
-				if a := k.Common().Args; len(a) == 3 {
-					for _, o := range c09Origins(a[2]) {
-						if o.Kind == "param" || o.Kind == "other" || o.Kind == "freevar" {
-							forwards = true
-						}
-					}
-				}
-				if forwards {
-					c.Unsure("subscribers called from "+an.FuncName(root), k.Pos(), "publication through a helper is not followed back to Aggregate")
-				} else {
-					c.Bad("subscribers called from "+an.FuncName(root), k.Pos(), "subscribers are called outside Aggregator.Aggregate with a set that is not the checked result of the aggregation loop")
-				}
-				continue
-			}
-			pubs = append(pubs, k)
-		}
-	}
-	if len(pubs) == 0 {
-		c.Bail("no call through Aggregator.subs in Aggregate")
-	}
-	aggs := c.SomeCalls(fn, an.Static(c09FnAggLower), "a.aggregate", false)
-	// the published set
-	var out ssa.Value
-	for _, k := range pubs {
-		args := k.Common().Args
-		if len(args) != 3 {
-			c.Bail("subscriber signature changed")
-		}
-		o := c09Origin(args[2])
-		var m ssa.Value
-		switch {
-		case o.Kind == "call" && o.Idx == 0 && an.Static("core.SignedDataSet.Clone")(&o.Call.Call):
-			m = an.Unwrap(o.Call.Call.Args[0])
-		default:
-			m = an.Unwrap(args[2])
-		}
-		mk, ok := m.(*ssa.MakeMap)
-		if !ok {
-			c.Unsure("Aggregate published set", k.Pos(), "the set handed to subscribers is not (a clone of) a map made in Aggregate")
-			continue
-		}
-		if out != nil && out != ssa.Value(mk) {
-			c.Unsure("Aggregate published set", k.Pos(), "subscribers receive different sets")
-			continue
-		}
-		out = mk
-		if o.Kind == "call" {
-			ok, why := an.Guarded(o.Call, k, an.DefaultGuard)
-			c.Check("Aggregate published set", k.Pos(), ok, "clone of the output set is used although Clone failed: "+why)
-		} else {
-			c.Good("Aggregate published set", k.Pos(), "output set")
-		}
-	}
-	if out == nil {
-		return
-	}
-	// writers of the set
-	for _, ref := range *out.Referrers() {
-		switch r := ref.(type) {
-		case *ssa.MapUpdate:
-			if r.Map != out {
-				c.Unsure("Aggregate output set escapes", posOf(r), "output set is stored into another map")
-				continue
-			}
-			construct := "Aggregate output[pubkey] = checked aggregate(pubkey, set[pubkey])"
-			o := c09Origin(r.Value)
-			var ac ssa.CallInstruction
-			for _, a := range aggs {
-				if o.Kind == "call" && o.Idx == 0 && ssa.Value(o.Call) == a.Value() {
-					ac = a
-				}
-			}
-			if ac == nil {
-				c.Bad(construct, posOf(r), "a value that is not the result of a.aggregate is published: "+o.String())
-				continue
-			}
-			a := ac.Common().Args
-			l := an.InnermostLoop(fn, ac.Block())
-			if l == nil || l.RangeColl() == nil || an.Unwrap(l.RangeColl()) != ssa.Value(setP) {
-				c.Unsure(construct, ac.Pos(), "a.aggregate is not called from a range loop over the input set")
-				continue
-			}
-			kx, ok1 := a[2].(*ssa.Extract)
-			vx, ok2 := a[3].(*ssa.Extract)
-			if !ok1 || !ok2 || kx.Tuple != vx.Tuple || kx.Index != 1 || vx.Index != 2 || !l.ElemOf(vx) {
-				c.Bad(construct, ac.Pos(), "a.aggregate does not receive the key and the partials of one entry of the input set")
-				continue
-			}
-			if an.Unwrap(r.Key) != ssa.Value(kx) {
-				c.Bad(construct, posOf(r), "the aggregate is published under a key other than the one it was verified for")
-				continue
-			}
-			ok, why := an.Guarded(ac, r, an.DefaultGuard)
-			c.Check(construct, posOf(r), ok, "result of a.aggregate is published although it returned an error: "+why)
-		case *ssa.Call:
-			if c09IsLen(r, out) || an.Static("core.SignedDataSet.Clone")(&r.Call) || subsM(&r.Call) {
-				continue
-			}
-			c.Unsure("Aggregate output set escapes", r.Pos(), "output set is passed to "+c09CallName(r))
-		case *ssa.Lookup, *ssa.Range, *ssa.DebugRef, *ssa.ChangeType:
-		default:
-			c.Unsure("Aggregate output set escapes", posOf(ref), "output set is used by an instruction the checker does not follow")
-		}
-	}
-	// all-or-nothing: every publication lies behind the complete aggregation loop
-	for _, k := range pubs {
-		for _, ac := range aggs {
-			construct := "Aggregate: subscribers run only after every validator aggregated"
-			l := an.InnermostLoop(fn, ac.Block())
-			if l == nil {
-				c.Unsure(construct, ac.Pos(), "a.aggregate is not called from a loop")
-				continue
-			}
-			good, why := false, "the error of a.aggregate is never branched on"
-			for _, e := range c09ErrStatus(ac) {
-				for _, cd := range an.CondsOn(fn, e) {
-					if cd.Other == nil || !an.IsNilConst(cd.Other) || (cd.Op != token.NEQ && cd.Op != token.EQL) {
-						continue
-					}
-					fail := cd.Succ(cd.Op == token.NEQ)
-					if !an.Dominates(ac, cd.If) {
-						continue
-					}
-					ok, w := an.ForallGuard(l, cd.If, fail, k)
-					if ok {
-						good = true
-					} else {
-						why = w
-					}
-				}
-			}
-			c.Check(construct, k.Pos(), good, why)
-		}
-	}
-}
-
-// G3: distinct-share count tested against the threshold before threshold aggregation.
-func c09G3(c *rt.Ctx) {
-	fn := c.Fn(c09FnAggLower)
-	c09HasField(c, "core/sigagg", "Aggregator", "threshold")
-	parSigsP := c09ParamOfType(c, fn, "[]core.ParSignedData")
-	ta := c.OneCall(fn, an.Static("tbls.ThresholdAggregate"), "tbls.ThresholdAggregate", false)
-	m, ok := an.Unwrap(ta.Common().Args[0]).(*ssa.MakeMap)
-	if !ok {
-		c.Unsure("aggregate share map", ta.Pos(), "the argument of tbls.ThresholdAggregate is not a map made in aggregate")
-		return
-	}
-	isThr := func(v ssa.Value) bool { return c09LoadOfRecvField(fn, v, c09Agg+".threshold") }
-	var ups []*ssa.MapUpdate
-	for _, ref := range *m.Referrers() {
-		switch r := ref.(type) {
-		case *ssa.MapUpdate:
-			ups = append(ups, r)
-		case *ssa.Call:
-			if c09IsLen(r, m) || ssa.Value(r) == ta.Value() {
-				continue
-			}
-			c.Unsure("aggregate share map", r.Pos(), "share map is passed to "+c09CallName(r))
-		case *ssa.Lookup, *ssa.Range, *ssa.DebugRef:
-		default:
-			c.Unsure("aggregate share map", posOf(ref), "share map is used by an instruction the checker does not follow")
-		}
-	}
-	if len(ups) == 0 {
-		c.Bail("no insertion into the share map")
-	}
-	for _, up := range ups {
-		l := an.InnermostLoop(fn, up.Block())
-		if l == nil || l.RangeColl() == nil || an.Unwrap(l.RangeColl()) != ssa.Value(parSigsP) {
-			c.Bad("aggregate share map filled from parSigs", posOf(up), "insertion into the share map is not inside a range loop over the partials parameter")
-			continue
-		}
-		c.Good("aggregate share map filled from parSigs", posOf(up), "")
-		// key
-		key := an.Unwrap(up.Key)
-		isShare := false
-		switch x := key.(type) {
-		case *ssa.Field:
-			isShare = an.FieldKey(x.X.Type(), x.Field) == "core.ParSignedData.ShareIdx"
-		case *ssa.UnOp:
-			if fa, ok := x.X.(*ssa.FieldAddr); ok && x.Op == token.MUL {
-				isShare = an.FieldKey(fa.X.Type(), fa.Field) == "core.ParSignedData.ShareIdx"
-			}
-		}
-		c.Check("aggregate share map keyed by ShareIdx", posOf(up), isShare && l.ElemOf(key),
-			"the share map is not keyed by the ShareIdx of the partial being added: a repeated share is counted twice")
-		// value
-		o := c09Origin(up.Value)
-		if o.Kind == "call" && o.Idx == 0 && an.Static("tbls/tblsconv.SigFromCore")(&o.Call.Call) {
-			so := c09Origin(o.Call.Call.Args[0])
-			fromElem := so.Kind == "call" && so.Call.Call.IsInvoke() && so.Call.Call.Method.Name() == "Signature" && l.ElemOf(so.Call.Call.Value)
-			g, why := an.Guarded(o.Call, up, an.DefaultGuard)
-			switch {
-			case !fromElem:
-				c.Bad("aggregate share map value", posOf(up), "the signature stored is not the Signature() of the partial being added")
-			default:
-				c.Check("aggregate share map value", posOf(up), g, "signature conversion error is not checked: "+why)
-			}
-		} else if o.Kind == "other" {
-			c.Unsure("aggregate share map value", posOf(up), "cannot follow the stored signature")
-		} else {
-			c.Bad("aggregate share map value", posOf(up), "the signature stored is not tblsconv.SigFromCore(partial.Signature()): "+o.String())
-		}
-	}
-	// size test after filling
-	good, why := false, "no test `len(share map) < a.threshold` precedes tbls.ThresholdAggregate"
-	for _, g := range c09LenGuards(fn, m, isThr) {
-		if !an.Dominates(g.If, ta) {
-			why = "the threshold test does not dominate tbls.ThresholdAggregate"
-			continue
-		}
-		if !an.EdgeCuts(g.Fail, ta, nil) {
-			why = "with fewer than threshold distinct shares control still reaches tbls.ThresholdAggregate"
-			continue
-		}
-		late := false
-		for _, up := range ups {
-			if up.Block() == g.If.Block() || an.CanReach(g.If.Block(), up.Block(), nil) {
-				late = true
-			}
-		}
-		if late {
-			why = "shares are still added to the map after its size was tested"
-			continue
-		}
-		good = true
-	}
-	c.Check("aggregate len(distinct shares) < threshold → no aggregation", ta.Pos(), good, why)
-	// the cheap pre-check on the raw list is implied by the test above (len(map) <= len(list)); recorded when present
-	pre := false
-	for _, g := range c09LenGuards(fn, parSigsP, isThr) {
-		if an.Dominates(g.If, ta) && an.EdgeCuts(g.Fail, ta, nil) {
-			pre = true
-		}
-	}
-	if pre {
-		c.Good("aggregate len(parSigs) < threshold pre-check", fn.Pos(), "")
-	} else {
-		c.Note("G3: no len(parSigs) < threshold pre-check in aggregate (implied by the distinct-share test)")
-	}
-}
-
-// G4: the verifier chain.
-func c09G4(c *rt.Ctx) {
-	// (a) NewVerifier's closure
-	nv := c.Fn("core/sigagg.NewVerifier")
-	var vc ssa.CallInstruction
-	for _, k := range an.Calls(nv, an.Static("core.VerifyEth2SignedData"), true) {
-		if vc != nil {
-			c.Bail("NewVerifier: more than one call to core.VerifyEth2SignedData")
-		}
-		vc = k
-	}
-	if vc == nil {
-		c.Bail("NewVerifier does not call core.VerifyEth2SignedData")
-	}
-	vfn := vc.Parent()
-	for _, r := range an.Returns(nv) {
-		if vfn == nv {
-			break
-		}
-		mc, ok := an.Unwrap(r.Results[0]).(*ssa.MakeClosure)
-		if ok && mc.Fn == ssa.Value(vfn) {
-			c.Good("NewVerifier returns the verifying closure", posOf(r), "")
-		} else if ok {
-			c.Bad("NewVerifier returns the verifying closure", posOf(r), "the function returned is not the one calling core.VerifyEth2SignedData")
-		} else {
-			c.Unsure("NewVerifier returns the verifying closure", posOf(r), "returned function value cannot be resolved")
-		}
-	}
-	{
-		pubkeyP := c09ParamOfType(c, vfn, "core.PubKey")
-		dataP := c09ParamOfType(c, vfn, "core.SignedData")
-		a := vc.Common().Args
-		// pubkey
-		o := c09Origin(a[3])
-		if o.Kind == "call" && an.Static("tbls/tblsconv.PubkeyFromCore")(&o.Call.Call) && o.Idx == 0 {
-			same := c09Origin(o.Call.Call.Args[0])
-			g, why := an.Guarded(o.Call, vc, an.DefaultGuard)
-			switch {
-			case !c09IsParam(pubkeyP)(same):
-				c.Bad("NewVerifier→VerifyEth2SignedData pubkey", vc.Pos(), "the key converted is not the pubkey parameter: "+same.String())
-			default:
-				c.Check("NewVerifier→VerifyEth2SignedData pubkey", vc.Pos(), g, "pubkey conversion error is not checked: "+why)
-			}
-		} else if o.Kind == "other" {
-			c.Unsure("NewVerifier→VerifyEth2SignedData pubkey", vc.Pos(), "cannot follow the public key argument")
-		} else {
-			c.Bad("NewVerifier→VerifyEth2SignedData pubkey", vc.Pos(), "expected tblsconv.PubkeyFromCore(pubkey), found "+o.String())
-		}
-		// data
-		c09Bind(c, "NewVerifier→VerifyEth2SignedData data", vc.Pos(), a[2], "the data parameter (asserted to core.Eth2SignedData)", c09IsParam(dataP))
-		c09NilOnlyVia(c, vfn, vc, "core.VerifyEth2SignedData")
-	}
-	// (b) core.VerifyEth2SignedData
-	{
-		fn := c.Fn("core.VerifyEth2SignedData")
-		sv := c.OneCall(fn, an.Static(c09SigningPkg+".Verify"), "signing.Verify", false)
-		dataP := c09ParamOfType(c, fn, "core.Eth2SignedData")
-		pubkeyP := c09ParamOfType(c, fn, "tbls.PublicKey")
-		a := sv.Common().Args
-		if len(a) != 7 {
-			c.Bail("signing.Verify: unexpected arity")
-		}
-		pre := "VerifyEth2SignedData→signing.Verify "
-		c09Bind(c, pre+"domain", sv.Pos(), a[2], "data.DomainName()", c09IsInvokeOn(dataP, "DomainName", 0))
-		if c09Bind(c, pre+"epoch", sv.Pos(), a[3], "data.Epoch(ctx, eth2Cl)", c09IsInvokeOn(dataP, "Epoch", 0)) {
-			c09CheckedCall(c, pre+"epoch error checked", a[3], sv, "data.Epoch's error is not checked: ")
-		}
-		if c09Bind(c, pre+"root", sv.Pos(), a[4], "data.MessageRoot()", c09IsInvokeOn(dataP, "MessageRoot", 0)) {
-			c09CheckedCall(c, pre+"root error checked", a[4], sv, "data.MessageRoot's error is not checked: ")
-		}
-		c09Bind(c, pre+"signature", sv.Pos(), a[5], "data.Signature()", c09IsInvokeOn(dataP, "Signature", 0))
-		c09Bind(c, pre+"pubkey", sv.Pos(), a[6], "the pubkey parameter", c09IsParam(pubkeyP))
-		c09NilOnlyVia(c, fn, sv, "signing.Verify")
-	}
-	// (c) signing.Verify
-	var gdFn *ssa.Function
-	{
-		fn := c.Fn(c09SigningPkg + ".Verify")
-		gd := c.OneCall(fn, an.Static(c09SigningPkg+".GetDataRoot"), "GetDataRoot", false)
-		tv := c.OneCall(fn, an.Static("tbls.Verify"), "tbls.Verify", false)
-		gdFn = gd.Common().StaticCallee()
-		domP := c09ParamOfType(c, fn, c09SigningPkg+".DomainName")
-		epP := c09ParamOfType(c, fn, "github.com/attestantio/go-eth2-client/spec/phase0.Epoch")
-		rootP := c09ParamOfType(c, fn, "github.com/attestantio/go-eth2-client/spec/phase0.Root")
-		sigP := c09ParamOfType(c, fn, "github.com/attestantio/go-eth2-client/spec/phase0.BLSSignature")
-		pkP := c09ParamOfType(c, fn, "tbls.PublicKey")
-		a := gd.Common().Args
-		if len(a) != 5 || len(tv.Common().Args) != 3 {
-			c.Bail("GetDataRoot/tbls.Verify: unexpected arity")
-		}
-		pre := "signing.Verify→GetDataRoot "
-		c09Bind(c, pre+"domain", gd.Pos(), a[2], "the domain parameter", c09IsParam(domP))
-		c09Bind(c, pre+"epoch", gd.Pos(), a[3], "the epoch parameter", c09IsParam(epP))
-		c09Bind(c, pre+"root", gd.Pos(), a[4], "the sigRoot parameter", c09IsParam(rootP))
-		b := tv.Common().Args
-		pre = "signing.Verify→tbls.Verify "
-		c09Bind(c, pre+"pubkey", tv.Pos(), b[0], "the pubkey parameter", c09IsParam(pkP))
-		if c09Bind(c, pre+"message", tv.Pos(), b[1], "the signing root returned by GetDataRoot", c09IsResultOf(gd, 0)) {
-			g, why := an.Guarded(gd, tv, an.DefaultGuard)
-			c.Check(pre+"message error checked", tv.Pos(), g, "GetDataRoot's error is not checked: "+why)
-		}
-		c09Bind(c, pre+"signature", tv.Pos(), b[2], "the signature parameter", c09IsParam(sigP))
-		c09NilOnlyVia(c, fn, tv, "tbls.Verify")
-	}
-	// (d) GetDataRoot
-	var domFn *ssa.Function
-	{
-		fn := gdFn
-		if fn == nil || fn.Blocks == nil {
-			c.Bail("GetDataRoot has no body")
-		}
-		dom := c.OneCall(fn, an.Static(c09SigningPkg+".GetDomain"), "GetDomain", false)
-		domFn = dom.Common().StaticCallee()
-		nameP := c09ParamOfType(c, fn, c09SigningPkg+".DomainName")
-		epP := c09ParamOfType(c, fn, "github.com/attestantio/go-eth2-client/spec/phase0.Epoch")
-		rootP := c09ParamOfType(c, fn, "github.com/attestantio/go-eth2-client/spec/phase0.Root")
-		a := dom.Common().Args
-		if len(a) != 4 {
-			c.Bail("GetDomain: unexpected arity")
-		}
-		c09Bind(c, "GetDataRoot→GetDomain name", dom.Pos(), a[2], "the name parameter", c09IsParam(nameP))
-		c09Bind(c, "GetDataRoot→GetDomain epoch", dom.Pos(), a[3], "the epoch parameter", c09IsParam(epP))
-		n := 0
-		for _, r := range c09Returns(fn) {
-			if len(r.Vals) != 2 || r.Vals[1] == nil || !an.IsNilConst(r.Vals[1]) {
-				if len(r.Vals) == 2 && r.Vals[1] != nil {
-					e := r.Vals[1]
-					if call, ok := an.Unwrap(e).(*ssa.Call); ok && an.Static("app/errors.New", "app/errors.Wrap")(&call.Call) {
-						continue
-					}
-					if c09NonNilEdge(fn, e, r.Sink[1]) {
-						continue
-					}
-				}
-				c.Unsure("GetDataRoot success value", posOf(r.Ret), "cannot tell whether this return reports success")
-				continue
-			}
-			n++
-			construct := "GetDataRoot = HashTreeRoot(SigningData{ObjectRoot: root, Domain: GetDomain(name, epoch)})"
-			o := c09Origin(r.Vals[0])
-			if o.Kind == "other" {
-				c.Unsure(construct, posOf(r.Ret), "cannot follow the returned root")
-				continue
-			}
-			callee := ""
-			if o.Kind == "call" && o.Call.Call.StaticCallee() != nil {
-				callee = o.Call.Call.StaticCallee().Name()
-			}
-			if callee != "HashTreeRoot" || o.Idx != 0 || len(o.Call.Call.Args) != 1 || an.TypeName(o.Call.Call.Args[0].Type()) != c09SigningDat {
-				c.Bad(construct, posOf(r.Ret), "the root returned with a nil error is not phase0.SigningData.HashTreeRoot(): "+o.String())
-				continue
-			}
-			if g, why := an.Guarded(o.Call, r.Sink[0], an.DefaultGuard); !g {
-				c.Bad(construct, posOf(r.Ret), "HashTreeRoot's error is not checked: "+why)
-				continue
-			}
-			al, ok := o.Call.Call.Args[0].(*ssa.Alloc)
-			if !ok {
-				c.Unsure(construct, o.Call.Pos(), "the SigningData hashed is not a literal built in GetDataRoot")
-				continue
-			}
-			fields := map[string]ssa.Value{}
-			clean := true
-			for _, ref := range *al.Referrers() {
-				switch x := ref.(type) {
-				case *ssa.FieldAddr:
-					for _, r2 := range *x.Referrers() {
-						if st, ok := r2.(*ssa.Store); ok && st.Addr == ssa.Value(x) {
-							k := an.FieldKey(x.X.Type(), x.Field)
-							if _, dup := fields[k]; dup {
-								clean = false
-							}
-							fields[k] = st.Val
-						} else if _, ok := r2.(*ssa.DebugRef); !ok {
-							clean = false
-						}
-					}
-				case *ssa.Call:
-					if ssa.Value(x) != ssa.Value(o.Call) {
-						clean = false
-					}
-				case *ssa.DebugRef:
-				default:
-					clean = false
-				}
-			}
-			if !clean {
-				c.Unsure(construct, o.Call.Pos(), "the SigningData literal is modified in ways the checker does not follow")
-				continue
-			}
-			or, dm := fields[c09SigningDat+".ObjectRoot"], fields[c09SigningDat+".Domain"]
-			if or == nil || dm == nil {
-				c.Bad(construct, o.Call.Pos(), "ObjectRoot or Domain of the hashed SigningData is left zero")
-				continue
-			}
-			c09Bind(c, construct+" ObjectRoot", o.Call.Pos(), or, "the root parameter", c09IsParam(rootP))
-			if c09Bind(c, construct+" Domain", o.Call.Pos(), dm, "the domain returned by GetDomain", c09IsResultOf(dom, 0)) {
-				g, why := an.Guarded(dom, o.Call, an.DefaultGuard)
-				c.Check(construct+" Domain error checked", o.Call.Pos(), g, "GetDomain's error is not checked: "+why)
-			}
-		}
-		if n == 0 {
-			c.Bail("GetDataRoot has no success return")
-		}
-	}
-	// (e) GetDomain
-	{
-		fn := domFn
-		if fn == nil || fn.Blocks == nil {
-			c.Bail("GetDomain has no body")
-		}
-		nameP := c09ParamOfType(c, fn, c09SigningPkg+".DomainName")
-		epP := c09ParamOfType(c, fn, "github.com/attestantio/go-eth2-client/spec/phase0.Epoch")
-		calls := an.Calls(fn, an.Invoke("app/eth2wrap.Client.Domain", "app/eth2wrap.Client.GenesisDomain"), false)
-		if len(calls) == 0 {
-			c.Bail("GetDomain does not query the beacon client for a domain")
-		}
-		nEpoch := 0
-		for _, k := range calls {
-			a := k.Common().Args
-			meth := k.Common().Method.Name()
-			// domain type = spec[string(name)]
-			construct := "GetDomain " + meth + " domain type = spec[name]"
-			o := c09Origin(a[1])
-			switch {
-			case o.Kind == "lookup":
-				lk := o.Val.(*ssa.Lookup)
-				c09Bind(c, construct, k.Pos(), lk.Index, "the name parameter as spec key", c09IsParam(nameP))
-			case o.Kind == "other":
-				c.Unsure(construct, k.Pos(), "cannot follow the domain type")
-			default:
-				c.Bad(construct, k.Pos(), "the domain type is not looked up in the beacon spec: "+o.String())
-			}
-			if meth == "Domain" {
-				nEpoch++
-				c09Bind(c, "GetDomain Domain epoch", k.Pos(), a[2], "the epoch parameter", c09IsParam(epP))
-			}
-		}
-		if nEpoch == 0 {
-			c.Bad("GetDomain Domain epoch", fn.Pos(), "no epoch-dependent domain is requested: every signature is checked against the genesis domain")
-		}
-	}
 }
 
 // G5: type → domain table.
@@ -1267,8 +594,11 @@ func c09G5(c *rt.Ctx) {
 		}
 		want, listed := c09DomainTable[tn]
 		switch {
+		case unknown && len(vals) > 1:
+			c.Bad(construct, m.Pos(), fmt.Sprintf("returns %d different domains (and a value that is not a constant)", len(vals)))
 		case unknown:
-			c.Bad(construct, m.Pos(), "does not return a single signing.Domain* constant")
+			// e.g. a package-level table or variable: the value is not decided by the method body
+			c.Unsure(construct, m.Pos(), "does not return a signing.Domain* constant the checker can read off the method body")
 		case len(vals) != 1:
 			c.Bad(construct, m.Pos(), fmt.Sprintf("returns %d different domains", len(vals)))
 		case !listed:
